@@ -1,4 +1,4 @@
-(* Model/Sig0.v — sig0.go on octet strings: SIG.Sign (buffer sizing from Len(),
+(* Model/Sig0.v — sig0.go on octet strings: SIG.Sign (buffer sizing from the uncompressed length,
    in-place packing of message and SIG record, RDLENGTH and ARCOUNT patching)
    and SIG.Verify (manual section skipping by offsets, validity window, signer
    check, digest input).  Definitions only.
@@ -44,18 +44,18 @@ Section WithSig.
   Variable sig_check : N -> bytes -> bytes -> res unit.   (* SIG algorithm, data, signature *)
 
   (* ---------- SIG.Sign ----------
-     [clen] = m.Len() (the compressed length when m.Compress is set),
-     [ulen] = the uncompressed length PackBuffer sizes its buffer from,
-     [mbuf] = what m.PackBuffer returns. *)
-  Definition sig0_sign (clen ulen : N) (mbuf : bytes) (r : sigrr) : res bytes :=
+     [ulen] = msgLenWithCompressionMap(m, nil), the uncompressed length
+     PackBuffer sizes its buffer from; [mbuf] = what m.PackBuffer returns. *)
+  Definition sig0_sign (ulen : N) (mbuf : bytes) (r : sigrr) : res bytes :=
     if key_fields_bad r then Err "key" else
     let lrr := lenN (sig_rr_wire r) in                (* Len(rr): the Signature is still empty *)
-    (* buf := make(m.Len()+Len(rr)); PackBuffer allocates a new buffer when
-       len(buf) < uncompressedLen+1, and then &buf[0] != &mbuf[0] *)
-    if clen + lrr <? ulen + 1 then Err "buf" else
+    (* buf := make(uncompressed length + 1 + Len(rr)); PackBuffer allocates a
+       new buffer only when len(buf) < uncompressedLen+1 (then &buf[0] != &mbuf[0]) *)
+    let buflen := ulen + 1 + lrr in
+    if buflen <? ulen + 1 then Err "buf" else
     (* PackRR(rr, buf, len(mbuf), nil, false) *)
     if negb (valid_wire (s_signer r)) then Err "rdata" else
-    if clen + lrr <? lenN mbuf + lrr then Err "packrr" else
+    if buflen <? lenN mbuf + lrr then Err "packrr" else
     if negb (has_hash (s_alg r)) then Err "alg" else
     do sg <- sig_sign (s_alg r) (sig_rdata r ++ mbuf);
     let out := mbuf ++ sig_rr_wire r ++ sg in
@@ -94,13 +94,13 @@ Section WithSig.
     list_eqb bytes_eqb (map lower_bytes a) (map lower_bytes b).
 
   (* the octets SIG.Verify hashes, given the offsets it has computed.  The
-     second octet pair stands for ARCOUNT-1: Go writes byte((adc-1)<<8), which
-     is always 0, and byte(adc-1). *)
+     octet pair in the middle is ARCOUNT-1 (uint16 arithmetic), big endian:
+     byte((adc-1)>>8), byte(adc-1). *)
   Definition verify_data (buf : bytes) (adc bodyend sigstart sigend : N) : res bytes :=
     do rd <- slice buf sigstart sigend;
     do h10 <- slice buf 0 10;
     do body <- slice buf 12 bodyend;
-    Ok (rd ++ h10 ++ [(((adc + 65535) mod 65536) * 256) mod 65536 mod 256; ((adc + 65535) mod 65536) mod 256] ++ body).
+    Ok (rd ++ h10 ++ [((adc + 65535) mod 65536) / 256; ((adc + 65535) mod 65536) mod 256] ++ body).
 
   (* [r]: the SIG as unpacked by the caller; [kname]: owner name of the KEY;
      [now]: uint32(time.Now().Unix()) *)
